@@ -301,6 +301,30 @@ def rule_stack(rep, res, entry=None, sym="bs"):
                   config=res.config,
                   msg=f"the tail `[{j_}:]` is filled with an extremum of the real rows `[:{k_}]`, but the two boundaries differ: real rows "
                       f"between them are overwritten with another row's value (or padded rows keep their own)")
+    # per-row scalar Parameters (one tolerance / requested total per sample) of a padded batch: the rows appended as padding carry the
+    # zero fill of the iterated arrays; a constraint `f(x_row) ≤ 0 (+ eps)` on a padded row is infeasible as soon as the bounds keep
+    # f(x_row) away from 0 (lb > 0), and the whole batch fails.  The padded tail of such a Parameter must be set explicitly.
+    padded = any(ev.d["callee"].name == "batched_iteration" and (ev.d["kws"].get("pad") is not None and ev.d["kws"]["pad"].known
+                                                                  and ev.d["kws"]["pad"].const is True) for ev in res.events("call"))
+    if padded:
+        I = _FakeI(res)
+        used = set()
+        for po, obj, cons in problems_of(res):
+            for c in cons:
+                used |= set(c.flat().refs)
+        for o, stores in param_stores(res):
+            if o.id not in used or o.shape is None or o.shape.ell or len(o.shape.axes) != 1 or o.shape.axes[0] != (sym,):
+                continue
+            st = [s_ for s_ in stores if s_.loops]
+            if not st:
+                continue
+            ok = any(s_.d["val"].tag("tail_filled") for s_ in st)
+            rep.check("R-STACK", "per-row parameters of a padded batch get an explicit value for the padded rows", ok, where=st[0].loc,
+                      construct=st[0].text(), entry=entry, config=res.config,
+                      msg="this per-sample Parameter enters a constraint and receives the iterated array as it is: on the padded last batch "
+                          "its padded rows are 0, so the padded rows must satisfy the constraint with a bound of 0 (e.g. Σx ≤ 0 + eps) although "
+                          "their variables are still confined to [lb, ub] — infeasible for lb > 0, and the call fails only for batch sizes "
+                          "that do not divide the number of samples")
     return nerr
 
 
